@@ -11,6 +11,9 @@ import Ctrmml.Proofs.LayoutLines
 import Ctrmml.Proofs.LayoutBlockLines
 import Ctrmml.Proofs.LayoutDec
 import Ctrmml.Proofs.StarDecimal
+import Ctrmml.Proofs.LayoutLines2
+import Ctrmml.Proofs.LayoutDec2
+import Ctrmml.Proofs.IdsBound
 import Ctrmml.Spec.Layout
 namespace Ctrmml.C06
 open Ctrmml Ctrmml.Tables Ctrmml.Lexer Ctrmml.TrackBuilder Ctrmml.Mml
@@ -645,5 +648,156 @@ theorem C06_short_block_counterexample :
               (1, [{ type := ev_NOTE, param := 62, on := 24, off := 0 }, { type := ev_NOTE, param := 65, on := 24, off := 0 }]),
               (2, [{ type := ev_NOTE, param := 65, on := 24, off := 0 }])]) := by
   decide +kernel
+
+/-! ## round 3: fine volume, echo and loop break in the covered set; the track-count bound derived
+
+`LCovered2` (= `L2.LCovered`, Proofs/LayoutCmd2) is `LCovered` widened by the fine volume `V n`
+(n ≥ 0 as written), `V+n`, `V-n` (n > 0, decimal: the `-` is put back and read as the sign of the
+number), the echo `\` with every duration form, and the loop break `/`.  `L2.CmdsOk`, `L2.runCmds`,
+`L2.ToksOk`, `L2.LinesOk` are the notions of round 2 over this set (Proofs/LayoutLine2,
+Proofs/LayoutLines2); lines, tokens, addresses, `trackOf`, `Ready`, `layoutCmds` are unchanged.
+Two side conditions are new and explicit:
+* the loop break is covered on lines WITHOUT conditional blocks only (these theorems; `lcmd_step2`
+  carries `s.conditionalBlock = false`): inside a block the byte `/` is the alternative separator;
+* the look-ahead condition of `\` (`L2.LCmdTail`) asks, beyond `DurTail`, that the byte directly
+  behind `\` is neither a blank nor `=` (`EchoHead`): `mml_echo` reads it with `get_token()` to tell
+  `\` from `\=`, so `\ 4` is a different text from `\4` only through the blanks `get_token` skips;
+  that case (and the echo setting `\=d,v`) stays with the oracle. -/
+
+/-- A LAYOUT RUNS AS ITS COMMAND LIST, round 3 (PARTIAL: `L2.CmdsOk` — commands in `LCovered2`,
+numbers in range; lines without conditional blocks).  Same statement as `C06_layout_run_partial`
+over the wider command set. -/
+theorem C06_layout_run2_partial (ids : List Nat) (ls : List LLine) (n : Nat) (s : MmlState) (r : Bool)
+    (hnd : ids.Nodup) (hne : ids ≠ []) (hok : L2.LinesOk ids r ls) (hready : r = true → Ready ids s)
+    (hcmds : ∀ id ∈ ids, L2.CmdsOk (trackOf id s).strip (layoutCmds ls)) :
+    ∃ s', readLines n (ls.map LLine.text) s = .ok () s' ∧
+      (∀ id ∈ ids, (trackOf id s').strip = L2.runCmds (trackOf id s).strip (layoutCmds ls)) ∧
+      (∀ b, b ∉ ids → s'.song.tracks.lookup b = s.song.tracks.lookup b) := by
+  obtain ⟨s', h1, h2⟩ := L2.readLines_layout ids hnd hne ls n s r hok hready hcmds
+  exact ⟨s', h1, h2.tracks, h2.others⟩
+
+/-- LAYOUT INVARIANCE, round 3 (PARTIAL: `L2.CmdsOk`): `C06_layout_invariant_partial` for command
+lists that may contain `V n`, `V+n`, `V-n`, `\`, and the loop break `/`. -/
+theorem C06_layout_invariant2_partial (a : Nat) (ids1 ids2 : List Nat) (ls1 ls2 : List LLine) (n1 n2 : Nat) (s1 s2 : MmlState) (r1 r2 : Bool)
+    (ha1 : a ∈ ids1) (ha2 : a ∈ ids2) (hnd1 : ids1.Nodup) (hnd2 : ids2.Nodup)
+    (hok1 : L2.LinesOk ids1 r1 ls1) (hok2 : L2.LinesOk ids2 r2 ls2) (hr1 : r1 = true → Ready ids1 s1) (hr2 : r2 = true → Ready ids2 s2)
+    (hsame : layoutCmds ls1 = layoutCmds ls2) (hstart : (trackOf a s1).strip = (trackOf a s2).strip)
+    (hc1 : ∀ id ∈ ids1, L2.CmdsOk (trackOf id s1).strip (layoutCmds ls1))
+    (hc2 : ∀ id ∈ ids2, L2.CmdsOk (trackOf id s2).strip (layoutCmds ls2)) :
+    ∃ s1' s2', readLines n1 (ls1.map LLine.text) s1 = .ok () s1' ∧ readLines n2 (ls2.map LLine.text) s2 = .ok () s2' ∧
+      (trackOf a s1').strip = (trackOf a s2').strip ∧ (trackOf a s1').getEvents = (trackOf a s2').getEvents := by
+  obtain ⟨s1', h1, t1, _⟩ := C06_layout_run2_partial ids1 ls1 n1 s1 r1 hnd1 (List.ne_nil_of_mem ha1) hok1 hr1 hc1
+  obtain ⟨s2', h2, t2, _⟩ := C06_layout_run2_partial ids2 ls2 n2 s2 r2 hnd2 (List.ne_nil_of_mem ha2) hok2 hr2 hc2
+  have hst : (trackOf a s1').strip = (trackOf a s2').strip := by rw [t1 a ha1, t2 a ha2, hsame, hstart]
+  refine ⟨s1', s2', h1, h2, hst, ?_⟩
+  rw [← Track.strip_getEvents, hst, Track.strip_getEvents]
+
+/-- MULTI-TRACK LINES = SINGLE-TRACK LINES, round 3 (PARTIAL: `L2.CmdsOk`; lines without
+conditional blocks): `C06_multitrack_eq_single_partial` over the wider command set. -/
+theorem C06_multitrack_eq_single2_partial (ids : List Nat) (a : Nat) (multi single : List LLine) (n1 n2 : Nat) (s : MmlState)
+    (ha : a ∈ ids) (hnd : ids.Nodup) (hok1 : L2.LinesOk ids false multi) (hok2 : L2.LinesOk [a] false single)
+    (hsame : layoutCmds multi = layoutCmds single)
+    (hc : ∀ id ∈ ids, L2.CmdsOk (trackOf id s).strip (layoutCmds multi)) :
+    ∃ s1' s2', readLines n1 (multi.map LLine.text) s = .ok () s1' ∧ readLines n2 (single.map LLine.text) s = .ok () s2' ∧
+      (trackOf a s1').strip = (trackOf a s2').strip ∧ (trackOf a s1').getEvents = (trackOf a s2').getEvents :=
+  C06_layout_invariant2_partial a ids [a] multi single n1 n2 s s false false ha (by simp) hnd (by simp) hok1 hok2
+    (fun h => by cases h) (fun h => by cases h) hsame rfl hc
+    (fun id hid => by
+      have : id = a := by simpa using hid
+      subst this; rw [← hsame]; exact hc id ha)
+
+open Ctrmml.MmlMeaning (Cmd Dur Acc Num) in
+/-- `[ c V10 / V+2 \4 V-3 ]2` -/
+def exCmds2 : List Cmd :=
+  [.simple .loopStart none, .note 2 .none (.dflt 0), .simple .volFine (some { v := 10 }), .simple .loopBreak none,
+   .simple .volFineUp (some { v := 2 }), .echo (.len { v := 4 } 0), .simple .volFineDown (some { v := 3 }),
+   .simple .loopEnd (some { v := 2 })]
+
+/-- `AB [c V10 / V+2 \4 V-3 ]2` -/
+def exMulti2 : List LLine :=
+  [.hdr [.letter 0, .letter 1] 32
+    [.cmd (.simple .loopStart none), .cmd (.note 2 .none (.dflt 0)), .blank 32, .cmd (.simple .volFine (some { v := 10 })), .blank 32,
+     .cmd (.simple .loopBreak none), .blank 32, .cmd (.simple .volFineUp (some { v := 2 })), .blank 32, .cmd (.echo (.len { v := 4 } 0)),
+     .blank 32, .cmd (.simple .volFineDown (some { v := 3 })), .blank 32, .cmd (.simple .loopEnd (some { v := 2 }))] []]
+
+/-- `B [c|V10/V+2` and `<tab>\4V-3]2 ; x`: no separators where the spelling is unambiguous, a bar, a
+continuation line, a comment -/
+def exSingle2 : List LLine :=
+  [.hdr [.letter 1] 32
+    [.cmd (.simple .loopStart none), .cmd (.note 2 .none (.dflt 0)), .bar, .cmd (.simple .volFine (some { v := 10 })),
+     .cmd (.simple .loopBreak none), .cmd (.simple .volFineUp (some { v := 2 }))] [],
+   .cont 9 [.cmd (.echo (.len { v := 4 } 0)), .cmd (.simple .volFineDown (some { v := 3 })), .cmd (.simple .loopEnd (some { v := 2 })), .blank 32]
+     (tx "; x")]
+
+/-- the texts and the command lists are what the comments say -/
+example : exMulti2.map LLine.text = [tx "AB [c V10 / V+2 \\4 V-3 ]2"] ∧
+    exSingle2.map LLine.text = [tx "B [c|V10/V+2", tx "\t\\4V-3]2 ; x"] ∧
+    layoutCmds exMulti2 = exCmds2 ∧ layoutCmds exSingle2 = exCmds2 := by
+  refine ⟨by decide, by decide, rfl, rfl⟩
+
+/-- the hypotheses of `C06_layout_run2_partial`, `C06_layout_invariant2_partial` and
+`C06_multitrack_eq_single2_partial` hold for them, started on the empty song -/
+example : L2.LinesOk [0, 1] false exMulti2 ∧ L2.LinesOk [1] false exSingle2 ∧ [0, 1].Nodup ∧
+    (∀ id ∈ [0, 1], L2.CmdsOk (trackOf id MmlState.init).strip (layoutCmds exMulti2)) := by
+  decide +kernel
+
+/-- … and the model, evaluated on the two texts, agrees with the conclusion: track B gets the same events -/
+example :
+    ((outcome ["AB [c V10 / V+2 \\4 V-3 ]2"]).2.lookup 1) = ((outcome ["B [c|V10/V+2", "\t\\4V-3]2 ; x"]).2.lookup 1) ∧
+    (outcome ["AB [c V10 / V+2 \\4 V-3 ]2"]).1 = none := by
+  decide +kernel
+
+/-- the commands of the example are in `LCovered2`, and none of the new ones is in `LCovered` -/
+example : (∀ c ∈ exCmds2, LCovered2 c) ∧ ¬ LCovered (.simple .loopBreak none) ∧ ¬ LCovered (.echo (.dflt 0)) ∧
+    ¬ LCovered (.simple .volFine (some { v := 10 })) := by
+  decide
+
+/-- THE TRACK-COUNT BOUND IS DERIVED: a duplicate-free list of 16-bit track numbers (`uint16_t` in
+the code; every address `A`..`Z`, `0`..`9`, `*n` selects one, `C06_track_id_map`) has at most 65536
+entries — the hypothesis `ids.length ≤ 65536` of the block theorems follows by pigeonhole. -/
+theorem C06_track_count_bound (ids : List Nat) (hnd : ids.Nodup) (h16 : ∀ id ∈ ids, id < 65536) : ids.length ≤ 65536 :=
+  ids_length_le ids hnd h16
+
+/-- the ids a header selects are 16-bit -/
+theorem C06_header_ids_16bit (as : List Layout.Addr) (hok : HeaderOk as) : ∀ id ∈ as.map Layout.Addr.id, id < 65536 := by
+  induction as with
+  | nil => intro id h; simp at h
+  | cons a as ih =>
+    intro id h
+    simp only [List.map_cons, List.mem_cons] at h
+    rcases h with rfl | h
+    · have ha : AddrOk a := hok.1
+      cases a with
+      | letter k => have : k < 26 := ha; show k < 65536; omega
+      | digit d => have : d < 10 := ha; show 26 + d < 65536; omega
+      | star n => show n % 65536 < 65536; omega
+    · exact ih hok.2.2 id h
+
+example : HeaderOk [.letter 0, .digit 3, .star 70000] ∧ ([Layout.Addr.letter 0, .digit 3, .star 70000].map Layout.Addr.id).Nodup := by
+  decide
+
+/-- `C06_multitrack_blocks_run_partial` without the bound on the number of tracks: 16-bit track
+numbers instead (PARTIAL: `CmdsOk`, and `Clean` inside `BLinesOk` = D16, as before). -/
+theorem C06_multitrack_blocks_run16_partial (ids : List Nat) (ls : List BLine) (n : Nat) (s : MmlState) (r : Bool)
+    (hnd : ids.Nodup) (hne : ids ≠ []) (h16 : ∀ id ∈ ids, id < 65536) (hok : BLinesOk ids r ls) (hready : r = true → Ready ids s)
+    (hcmds : ∀ j id, ids[j]? = some id → CmdsOk (trackOf id s).strip (blayoutCmds j ls)) :
+    ∃ s', readLines n (ls.map BLine.text) s = .ok () s' ∧
+      (∀ j id, ids[j]? = some id → (trackOf id s').strip = runCmds (trackOf id s).strip (blayoutCmds j ls)) ∧
+      (∀ b, b ∉ ids → s'.song.tracks.lookup b = s.song.tracks.lookup b) :=
+  C06_multitrack_blocks_run_partial ids ls n s r hnd hne (C06_track_count_bound ids hnd h16) hok hready hcmds
+
+/-- `C06_multitrack_eq_single_blocks_partial` without the bound on the number of tracks (PARTIAL:
+`CmdsOk`, `Clean`). -/
+theorem C06_multitrack_eq_single_blocks16_partial (ids : List Nat) (j a : Nat) (multi : List BLine) (single : List LLine) (n1 n2 : Nat) (s : MmlState)
+    (hj : ids[j]? = some a) (hnd : ids.Nodup) (h16 : ∀ id ∈ ids, id < 65536)
+    (hok1 : BLinesOk ids false multi) (hok2 : LinesOk [a] false single)
+    (hsame : layoutCmds single = blayoutCmds j multi)
+    (hc : ∀ j id, ids[j]? = some id → CmdsOk (trackOf id s).strip (blayoutCmds j multi)) :
+    ∃ s1' s2', readLines n1 (multi.map BLine.text) s = .ok () s1' ∧ readLines n2 (single.map LLine.text) s = .ok () s2' ∧
+      (trackOf a s1').strip = (trackOf a s2').strip ∧ (trackOf a s1').getEvents = (trackOf a s2').getEvents :=
+  C06_multitrack_eq_single_blocks_partial ids j a multi single n1 n2 s hj hnd (C06_track_count_bound ids hnd h16) hok1 hok2 hsame hc
+
+/-- the block example of round 2 meets the 16-bit hypothesis -/
+example : [0, 1, 2].Nodup ∧ ∀ id ∈ [0, 1, 2], id < 65536 := by decide
 
 end Ctrmml.C06
